@@ -112,6 +112,19 @@ def ob_direction(pauli, timeout=30):
     return result('direction', check(goal, timeout), [f], x, goal, detail='bias %s' % pauli)
 
 
+def ob_direction_fresh(timeout=10):
+    """the direction dict is a new object on every call: generate_input adds the deformation name to it in place, so a dict shared between calls would carry one
+    request's deformation into the next (ownership analysis of the returned value)"""
+    from pyvc.effects import Effects
+    f = get_func(UT, 'get_direction_from_bias_ratio')
+    r = Effects().analyse(f)
+    shared = sorted(a for a in r.ret.alias if a.startswith(('global:', 'cache:', 'param:')))
+    memo = [ast.unparse(d) for d in f.node.decorator_list if ast.unparse(d.func if isinstance(d, ast.Call) else d).split('.')[-1] in ('lru_cache', 'cache')]
+    problems = (['the returned dict may be the shared object %s' % shared] if shared else []) + (['the function is memoised (%s) and returns a mutable dict' % memo] if memo else [])
+    return dict(verdict='refuted' if problems else 'discharged', model=dict(problems=problems) if problems else None, backend='pyvc-effects', seconds=0, kind='plain',
+                detail='; '.join(problems) or 'every return value is a freshly built dict', functions=[dict(function=f.ref, sha256_16=f.sha)], transparent=[], fresh=True)
+
+
 def ob_spec_fields(timeout=30):
     s = sym_iteration('1', 'Z')
     problems = []
@@ -190,6 +203,7 @@ def obligations(tier):
     obs = [Ob('C19.files', ob_files, {}, timeout=90), Ob('C19.spec.fields', ob_spec_fields, {}, timeout=60)]
     for p in 'XYZ':
         obs.append(Ob('C19.direction[%s]' % p, ob_direction, dict(pauli=p), timeout=60))
+    obs.append(Ob('C19.direction.fresh', ob_direction_fresh, {}, timeout=30, backend='pyvc-effects'))
     for w in ('no_overshoot', 'on_progression', 'none_dropped'):
         obs.append(Ob('C19.range.' + w, ob_range, dict(which=w), timeout=90))
     return obs
@@ -233,6 +247,8 @@ def native_generate(etas, sizes, prob, bias='Z', deformation=None):
             seen_dirs.append((round(pr['r_x'], 12), round(pr['r_y'], 12), round(pr['r_z'], 12)))
             if deformation and pr.get('deformation_name') != deformation:
                 return 'deformation name not written to %s' % fn
+            if not deformation and pr.get('deformation_name') is not None:
+                return 'file %s carries the noise deformation %r although none was requested in this call' % (fn, pr.get('deformation_name'))
         want_dirs = []
         for e_ in want_etas:
             dd = get_direction_from_bias_ratio(bias, e_)
@@ -263,6 +279,13 @@ def native_range(mn, mx, st):
 
 
 def replay(r):
+    if r['name'].endswith('direction.fresh'):
+        # two calls in one process: with a deformation, then without - the second specification must be free of it
+        for etas in ('0.5', '1', '0.5,3,inf'):
+            why = native_generate(etas, '3x3', '0.1', 'Z', 'XZZX') or native_generate(etas, '3x3', '0.1', 'Z', None)
+            if why:
+                return dict(confirmed=True, input=dict(eta=etas, sizes='3x3', prob='0.1', history='same request with --deformation_name XZZX first'), detail=why)
+        return dict(confirmed=False, detail='a request without deformation after one with a deformation writes no deformation name')
     if '.range.' in r['name']:
         from bounded.util import frac
         m = r.get('model') or {}
@@ -298,7 +321,9 @@ def replay(r):
 def replay_file(data):
     inp = data.get('input') or {}
     if 'eta' in inp and 'sizes' in inp:
-        why = native_generate(inp['eta'], inp['sizes'], inp.get('prob', '0.1'))
+        if inp.get('history'):
+            native_generate(inp['eta'], inp['sizes'], inp.get('prob', '0.1'), inp.get('bias', 'Z'), 'XZZX')
+        why = native_generate(inp['eta'], inp['sizes'], inp.get('prob', '0.1'), inp.get('bias', 'Z'))
     elif 'range' in inp:
         why = native_range(*inp['range'])
     else:
@@ -309,6 +334,12 @@ def replay_file(data):
 def bounded(tier, seed):
     rnd = random.Random(seed)
     ev, nt, viol, samples = 0, set(), [], []
+    # request history in one process: the same request with a deformation, then without (nothing of the first may leak into the second)
+    for etas in ('0.5', '1', '0.5,3,inf', 'inf'):
+        for bias in 'XZ':
+            why = native_generate(etas, '3x3', '0.1', bias, 'XZZX') or native_generate(etas, '3x3', '0.1', bias, None); ev += 2
+            if why:
+                viol.append(dict(obligation='C19.bounded.history', input=dict(eta=etas, sizes='3x3', prob='0.1', bias=bias, history='same request with --deformation_name XZZX first'), detail=why))
     for etas in ['0.5', '0.5,3', '1,10,inf', '0.5,1,3,10,30,100,inf', '2.5,inf']:
         for sizes in ['3x3', '3x3,5x5,7x7', '2x3,4', '3x3,5x4x2,7', '2x3x4,4x3x2,2x2x3']:
             for prob in ['0.1', '0.1:0.2:0.01', '0.05,0.1']:
